@@ -28,7 +28,7 @@ BUGS = ["stopKeepsStack", "staleChoiceAfterEnd", "restoreKeepsWaiting", "visitOn
 
 
 def mc_cfg(ctx, name, *, max_calls=12, max_polls=1, after_end=2, host_writes=False, max_host_sets=0, emit=True,
-           invariants=None, properties=None, bug=None, max_snaps=0, max_restores=0):
+           invariants=None, properties=None, bug=None, max_snaps=0, max_restores=0, max_rebinds=0):
     """Writes a config for MC_Runner.tla into the scratch dir; returns (cfg name, path)."""
     inv = list(invariants if invariants is not None else ALL_INVARIANTS)
     props = list(properties if properties is not None else ALL_PROPERTIES)
@@ -38,7 +38,7 @@ def mc_cfg(ctx, name, *, max_calls=12, max_polls=1, after_end=2, host_writes=Fal
              "  MaxCalls = %d" % max_calls, "  MaxPolls = %d" % max_polls, "  AfterEnd = %d" % after_end,
              "  HostWrites = %s" % ("TRUE" if host_writes else "FALSE"), "  MaxHostSets = %d" % max_host_sets,
              "  EmitBeh = %s" % ("TRUE" if emit else "FALSE"),
-             "  MaxSnaps = %d" % max_snaps, "  MaxRestores = %d" % max_restores]
+             "  MaxSnaps = %d" % max_snaps, "  MaxRestores = %d" % max_restores, "  MaxRebinds = %d" % max_rebinds]
     if bug:
         lines.append("  Bug <- Bug_%s" % bug)
     else:
@@ -78,7 +78,7 @@ def nonvacuity(ctx, cases_path, bug, invariants, properties=(), expect=None, **k
     return r.violated[0] if r.violated and isinstance(r.violated[0], str) else True
 
 
-def replay(ctx, cases_path, behs, layouts=None):
+def replay(ctx, cases_path, behs, layouts=None, bystander=None):
     """spec -> code.  behs: list of behaviours, or the path of an ndjson file.  Returns (stats, diffs)."""
     if isinstance(behs, str):
         bp = behs
@@ -89,17 +89,21 @@ def replay(ctx, cases_path, behs, layouts=None):
     args = ["core", "replay", "--cases", cases_path, "--beh", bp, "--out", out]
     if layouts:
         args += ["--layouts", layouts]
+    if bystander:
+        args += ["--bystander", bystander]
     p = ctx.harness(args, timeout=1200)
     stats = json.loads(p.stdout.strip().splitlines()[-1])
     return stats, vlib.read_ndjson(out)
 
 
-def record(ctx, cases_path, out, paths=3, calls=30, mode=None, hostsets=False, layouts=None, race=False):
+def record(ctx, cases_path, out, paths=3, calls=30, mode=None, hostsets=False, layouts=None, race=False, rebinds=False):
     args = ["core", "record", "--cases", cases_path, "--out", ctx.path(out), "--paths", paths, "--calls", calls]
     if mode:
         args += ["--mode", mode]
     if hostsets:
         args += ["--hostsets", "1"]
+    if rebinds:
+        args += ["--rebinds", "1"]
     if layouts:
         args += ["--layouts", layouts]
     p = ctx.harness(args, timeout=1200, race=race)
@@ -289,7 +293,7 @@ def run_core_check(ctx, spec):
         path = gen_cases(ctx, cs["family"], cs["n"][t], "cases_cs_%s.ndjson" % cs["family"], storer=cs.get("storer"))
         cases, _ = load_cases(path)
         rstats, trace_path = record(ctx, path, "trace_%s.ndjson" % cs["family"], paths=cs["paths"][t], calls=cs.get("calls", 35),
-                                    mode=cs.get("mode"), hostsets=cs.get("hostsets", False),
+                                    mode=cs.get("mode"), hostsets=cs.get("hostsets", False), rebinds=cs.get("rebinds", False),
                                     layouts="random" if cs.get("layouts") else None)
         res = validate(ctx, path, trace_path, label=cs.get("label", "YarnTrace[%s]" % cs["family"]))
         tix = None
@@ -336,8 +340,8 @@ def replay_core(ctx, spec):
     vlib.write_ndjson(cpath, [case])
     if rp["kind"] == "replay":
         behs = [{"case": case["id"], "steps": rp["steps"]}]
-        stats, diffs = replay(ctx, cpath, behs)
-        for d in diffs:
+        stats, diffs = replay(ctx, cpath, behs, bystander="all")
+        for d in diffs[:1]:
             ctx.violation(beh_payload({case["id"]: case}, behs, d), "replay: " + describe_diff(d["field"], d.get("exp"), d.get("got")),
                           signature=spec["sig"] + ":" + d["field"])
     elif rp["kind"] == "ast":
